@@ -81,3 +81,56 @@ def check_C01(run, replay=None): check_generic(run, "C01", "verdicts_C01", repla
 def check_C03(run, replay=None): check_generic(run, "C03", "verdicts_C03", replay=replay)
 def check_C06(run, replay=None): check_generic(run, "C06", "verdicts_C06", replay=replay)
 def check_C07(run, replay=None): check_generic(run, "C07", "verdicts_C07", replay=replay)
+
+def check_C05(run, replay=None):
+    prop = "C05"
+    C.proof_stage(run, prop)
+    count = 1200 if run.tier == "quick" else 20000
+    ok, log, bins = C.harness_build(["rt_run"], release=True)
+    run.oblige("harness-build rt_run (release) from /repo working tree", ok, log[-1500:])
+    cases = []
+    if ok:
+        rc, out = C.sh("timeout 900 %s %d %d '' hosts" % (bins["rt_run"], run.seed, count), timeout=1000)
+        run.oblige("harness-run rt_run hosts", rc == 0, out[-800:])
+        cases = [json.loads(l) for l in out.splitlines() if l.startswith("{")]
+    if replay:
+        cases = json.load(open(replay)).get("cases", cases)
+    panics = [c for c in cases if c.get("panic")]
+    cases = [c for c in cases if not c.get("panic")]
+    nsh = 16
+    shards = [s for s in (cases[i::nsh] for i in range(nsh)) if s]
+    texts = [HEADER + "Definition cs : list hcase := [\n" + ";\n".join("(%s, %s, %s, %s)" % (c["prog"], c["inputs"], c["acts"], c["traces"]) for c in sh)
+             + "].\nEval vm_compute in (verdicts_C05 cs).\n" for sh in shards]
+    res = C.run_case_files(prop, texts)
+    v1, v2, v3 = [], [], []; n = 0
+    hist = collections.Counter(); ahist = collections.Counter()
+    for sh, (okk, vals, raw) in zip(shards, res):
+        if not okk or len(vals) != 1 or len(vals[0]) != len(sh):
+            run.oblige("case-evaluation shard (C05)", False, raw[-1200:]); continue
+        for c, v in zip(sh, vals[0]):
+            n += 1
+            for k, m in c.get("hist", {}).items(): hist[k] += m
+            for k, m in c.get("ahist", {}).items(): ahist[k] += m
+            run.note_case((c["prog"], c["inputs"]), nontrivial=(c["size"] >= 4 and c["inputs"] != "[]"))
+            run.cov["traces_validated_against_impl"] += len(c["hosts"])
+            if v == 1: v1.append(c)
+            elif v == 2: v2.append(c)
+            elif v == 3: v3.append(c)
+    key = lambda c: c["size"] + len(c["inputs"])
+    v1.sort(key=key); v2.sort(key=key)
+    slim = lambda c: {k: c[k] for k in ("idx", "seed", "prog", "inputs", "hosts", "traces")}
+    run.oblige("no host panicked", not panics, json.dumps(panics[:3]))
+    run.oblige("C05_ok: all %d hosts show the same effects and events at the same points (%d programs)" % (12, n), not v2, json.dumps([slim(c) for c in v2[:2]])[:3000])
+    run.oblige("correspondence: model direct trace = implementation direct trace", not v1 and not v3 and n == len(cases), json.dumps([slim(c) for c in (v1 + v3)[:2]])[:3000])
+    if v2 or panics:
+        run.violation("C05_ok", {"property": prop, "what": "hosts disagree on the effects/events a command produces at some step (or a host panicked)", "cases": [slim(c) for c in v2[:8]] + panics[:3],
+                                 "how_to_replay": "rt_run <seed> <count> <idx> hosts"})
+    elif v1 or v3:
+        run.violation("correspondence", {"property": prop, "what": "model and implementation differ on the direct host; all implementation hosts agree with each other",
+                                         "broken": "correspondence Rt.Host.direct vs crux_core", "cases": [slim(c) for c in (v1 + v3)[:8]]}, no_input=True)
+    run.cov["rule"] = ("one generated command (depth 0-3) and one generated list of shell inputs (resolve live/late/repeated, drop, abort) replayed under 12 hosts: direct, map_effect(id), map_event(id), "
+                       "then(done,c), then(c,done), all[c], into, and(done,c), nesting depth 3 and 5, hand-polled Stream, real Core (probe after every input); non-trivial = size >= 4 and at least one input; distinct by (program, inputs)")
+    run.cov["samples"] = [slim(c) for c in cases[:1]]
+    run.extra["distribution"] = {"constructors": dict(hist), "inputs": dict(ahist), "hosts_per_case": 12}
+    run.assumptions += ["legacy capability API host and the serialized Bridge hosts are covered by C09's twin runs (builder `bridge`), not here"]
+    run.trusted += ["hand-written model coq/Rt/{Lang,Rt,Host}.v", "harness/src/bin/rt_run.rs hosts mode"]
